@@ -1,4 +1,5 @@
 import N0Verif.Proofs.Compare
+import N0Verif.Proofs.CompareFlags
 /-!
 # C07 — the compare verdict is exact
 
@@ -29,6 +30,32 @@ theorem C07_direct_exact (fl : Flags) (a b : Val) (ha : isN0 a = true) (hb : isN
   rw [compareTop_eq_sub _ a b hr]
   exact sub_direct_exact _ (noOpts_default fl true) rfl .entry [] a b ha hb (rootPair_ty hr).1 (rootPair_ty hr).2
 
+/-- **C07 (flags only add detail).** For every option record and every two flag records the two
+runs either fail with the same exception class or both return, with the same number of `differences`
+lines and the same core entries (`CoreEq`: differing pairs, type clashes — wherever the types flag
+files them —, unique items with their places); numeric deltas, equal-lists and whether the place is
+shown are the detail that varies.  Both entry points, all options. -/
+theorem C07_flags_only_add_detail (cfg : Cfg) (fl' : Flags) (a b : Val) :
+    RelE cfg.fl.types fl'.types (compareTop cfg a b) (compareTop (cfg.withFlags fl') a b) :=
+  compareTop_flags cfg fl' a b
+
+/-- in particular the verdict (`differences` empty / not empty / exception) is the same -/
+theorem C07_verdict_flags (cfg : Cfg) (fl' : Flags) (a b : Val) :
+    verdict (compareTop cfg a b) = verdict (compareTop (cfg.withFlags fl') a b) := by
+  have h := compareTop_flags cfg fl' a b
+  cases h1 : compareTop cfg a b with
+  | error e =>
+    cases h2 : compareTop (cfg.withFlags fl') a b with
+    | error e' => rfl
+    | ok r' => rw [h1, h2] at h; exact h.elim
+  | ok r =>
+    cases h2 : compareTop (cfg.withFlags fl') a b with
+    | error e' => rw [h1, h2] at h; exact h.elim
+    | ok r' =>
+      rw [h1, h2] at h
+      simp only [verdict]
+      rw [h.diffs]
+
 /-! Non-vacuity: reachable configurations, equal and unequal pairs through every branch. -/
 example : FlagInv (Flags.init.run [(.equal, true), (.elements, true), (.records, false)]) := by decide
 example : Flags.init.run [(.equal, true), (.elements, true), (.records, false)]
@@ -47,5 +74,11 @@ def exB : Val := .dict .n0 [(['a'], .list .n0 [.bool true, .int 2]), (['k'], .no
 def exB' : Val := .dict .n0 [(['a'], .list .n0 [.int 1]), (['f'], .none)]
 example : deq exB exB' = false := by decide
 example : (compareTop (Cfg.default Flags.init true) exB exB').map (·.diffs) = .ok 4 := by decide
+
+/-- the same pair under all flags switched: two type clashes move to `difftypes`, the count stays -/
+example : (compareTop (Cfg.default Flags.init true) exB exB').map (fun r => (r.diffs, r.diffTypes.length))
+    = .ok (4, 0) := by decide
+example : (compareTop (Cfg.default ⟨true, true, true, true, false, false⟩ true) exB exB').map (fun r => (r.diffs, r.diffTypes.length))
+    = .ok (4, 1) := by decide
 
 end N0.C07
